@@ -12,8 +12,12 @@ import (
 func (core *JApiCore) scanProject() (je *jerr.JApiError) {
 	defer func() {
 		// We might get an error during scanning included file, and we should return
-		// correct error in that case.
-		core.scannersStack.AddIncludeTraceToError(je)
+		// correct error in that case. The live stack describes how the file being scanned was reached: an error
+		// located in another file (a directive of the including file whose check was still pending when the included
+		// file began) has been traced by its directive already - possibly with an empty trace.
+		if je != nil && je.File == core.scanner.File() {
+			core.scannersStack.AddIncludeTraceToError(je)
+		}
 	}()
 
 	for {
